@@ -278,7 +278,7 @@ theorem sheet_step (s : State) (cmd : Cmd) (h : SheetInv s) : SheetInv (step s c
     have h4 : (hideSel s i).redo = s.redo := by unfold hideSel; split <;> rfl
     generalize hideSel s i = s1 at h1 h2 h3 h4
     split
-    · exact ⟨by rw [h2]; exact h1, by rw [h3]; exact hu, by rw [h4]; exact hr⟩
+    · exact ⟨hsel, hu, hr⟩
     · rename_i sh hsh
       have hst := stacks_push (s := s1) (d := .setState i sh.visible false) (by rw [h3]; exact hu)
         (by simp [diffOK])
@@ -584,7 +584,7 @@ theorem views_step (s : State) (cmd : Cmd) (h : AllOK s.sheets) (hc : cmdOK s cm
     simp only [step, hideSheet]
     have h2 : (hideSel s i).sheets = s.sheets := by unfold hideSel; split <;> rfl
     split
-    · rw [h2]; exact h
+    · exact h
     · simp only [push]
       rw [h2]
       exact allOK_modify h (fun _ => rfl)
